@@ -483,14 +483,17 @@ Definition nifti_flip (s : state) (sh : list nat) (vo : vorder) : bool :=
   | Some w => (1 <? length (files_info s) / nvols_of_shape sh) && Bool.eqb (ascending (files_info s)) w
   end.
 
+Definition first_file (fi : list entry) : file := e_file (nth 0 fi dflt_entry).
+
 Definition nifti_result (s : state) (sh : list nat) (i0 : nat) (col : option (nat * nat)) (vo : vorder) (em : bool)
-  : nifti_out :=
+  (dref : file) : nifti_out :=
   let flip := nifti_flip s sh vo in
   let fi := if flip
             then map_chunks (@rev entry) (length (files_info s) / nvols_of_shape sh) (nvols_of_shape sh) (files_info s)
             else files_info s in
   mknifti (ids fi) sh flip i0 col vo em (single_some (rep_times s))
-          (option_map (fun p => str_eqb p row_str) (single_some (pe_dirs s))).
+          (option_map (fun p => str_eqb p row_str) (single_some (pe_dirs s)))
+          (f_id dref) (stack_dtype dref) (forallb (fun e => f_has_acq (e_file e)) fi).
 
 Lemma to_nifti_result st vo em :
   snd (to_nifti st vo em) =
@@ -499,7 +502,8 @@ Lemma to_nifti_result st vo em :
   | Ok (_, sh) =>
       match snd (get_affine (fst (get_data st))) with
       | Err e => Err e
-      | Ok (i0, col) => Ok (nifti_result (fst (get_affine (fst (get_data st)))) sh i0 col vo em)
+      | Ok (i0, col) => Ok (nifti_result (fst (get_affine (fst (get_data st)))) sh i0 col vo em
+                                         (data_ref (fst (get_data st))))
       end
   end.
 Proof.
@@ -562,7 +566,7 @@ Proof.
     split; apply Permutation_in, Permutation_map; [|symmetry]; exact Hps. }
   unfold get_affine. rewrite Hag1, Hag2. rewrite <- Hfi.
   destruct (1 <? length (files_info s1) / nvols_of_shape sh) eqn:Hfpv; simpl.
-  - f_equal. unfold nifti_result, nifti_flip. simpl. rewrite <- Hfi, Htr, Hpe. reflexivity.
+  - f_equal. unfold nifti_result, nifti_flip, data_ref. simpl. rewrite <- Hfi, Htr, Hpe. reflexivity.
   - apply Nat.ltb_ge in Hfpv.
     assert (He1 : aff_edits s1 = []).
     { destruct (aff_edits s1) eqn:E; [reflexivity|]. exfalso.
@@ -571,7 +575,7 @@ Proof.
     { destruct (aff_edits s2) eqn:E; [reflexivity|]. exfalso.
       destruct Hs2 as [_ [X2 _]]. assert (1 < length (pos_vals s2)); [apply (x_edits s2 X2); rewrite E; discriminate|].
       rewrite <- Hfi in Hfpv2. lia. }
-    rewrite He1, He2. simpl. f_equal. unfold nifti_result, nifti_flip. rewrite <- Hfi, Htr, Hpe. reflexivity.
+    rewrite He1, He2. simpl. f_equal. unfold nifti_result, nifti_flip, data_ref. rewrite <- Hfi, Htr, Hpe. reflexivity.
 Qed.
 
 (* ------------------------------------------------------------------------------------------ *)
